@@ -25,4 +25,44 @@ PROPS = {
         theorems=['C02_sum', 'C02_monitor_sound'],
         assumptions=['key and value sizes change only inside mutate (the harness types guarantee it)'],
     ),
+    'C03': dict(
+        comps=['evict_order', 'keyset', 'drops', 'fault'],
+        theorems=['C03_insert', 'C03_exact_fit', 'C03_mutate', 'C03_set_max', 'C03_only_when'],
+        assumptions=['eviction order is observed through the order in which the evicted keys are dropped'],
+    ),
+    'C05': dict(
+        comps=['order', 'api'],
+        theorems=['C05_order', 'C05_observers', 'C05_peeks'],
+        assumptions=['iteration forward and reversed, keys(), values(), peek_lru/peek_mru and Debug are cross-checked against the pointer walk of the hook after every step (flag api)'],
+    ),
+    'C10': dict(
+        comps=['res', 'atomic', 'keyset', 'order', 'ents', 'sizes', 'cur', 'max', 'drops', 'evict_order', 'fault'],
+        ops=['insert', 'try_insert'],
+        theorems=['C10_insert', 'C10_try_insert'],
+    ),
+    'C11': dict(
+        comps=['res', 'closure_calls', 'keyset', 'order', 'ents', 'sizes', 'cur', 'max', 'drops', 'evict_order', 'fault', 'mon_c02'],
+        ops=['mutate'],
+        theorems=['C11_absent', 'C11_too_large', 'C11_ok'],
+        assumptions=['that the closure is not called for an absent key is observed by the harness (closure call counter), not part of the Layer A theorem'],
+    ),
+    'C15': dict(
+        comps=['visits', 'res', 'keyset', 'order', 'ents', 'sizes', 'cur', 'max', 'drops', 'fault'],
+        ops=['retain'],
+        theorems=['C15_retain'],
+    ),
+}
+
+NOT_APPLICABLE = {}
+
+_A = 'Coq kernel; no axioms; hand-written Layer A model of src/lib.rs + src/iter.rs validated against the real crate by step-wise differential runs (bounded by the traces run: structured random + corpus, debug and release, 5 hashers incl. all-colliding); hashbrown RawTable contract assumed'
+_T = 'Coq proof (invariant / characterisation lemmas by induction over operations, all oracles) + extracted-model differential correspondence and extracted monitors on the implementation'
+MANIFEST_TEXT = {
+    'C01': dict(text='Theorems C01_bound / C01_arith over every reachable state of the Layer A model (all histories, limits 0..2^64-1, capacities, table oracles): bound on the counter and on the unbounded sum of size estimates, no 64-bit under/overflow, eviction loop terminates. Tied to /repo by the step-wise differential check and the extracted monitor c01_mon on the implementation.', note=_A, technique=_T),
+    'C02': dict(text='Theorem C02_sum (cur = sum of recorded sizes = sum of entry_size, zero iff empty, one entry per key) over every reachable state; recorded per-entry sizes are read through the snapshot hook and compared after every step.', note=_A, technique=_T),
+    'C03': dict(text='Theorems C03_insert / C03_mutate / C03_set_max: the evicted entries are exactly the shortest LRU-first prefix (minimal_prefix) computed after crediting a replaced key, never the new or mutated entry; C03_exact_fit; C03_only_when (only successful insert, growing mutate, set_max_size evict). Eviction order of the implementation is read from the drop order.', note=_A, technique=_T),
+    'C05': dict(text='Theorem C05_order for every operation: keys after = surviving keys in their old relative order ++ promoted key, with the exact table of promoting operations; C05_observers: observers leave the state identical. Order of the implementation is read through the hook walk and cross-checked against iter()/rev()/keys()/values()/peek_lru/peek_mru/Debug after every step.', note=_A, technique=_T),
+    'C10': dict(text='Theorems C10_insert / C10_try_insert: exact classification with precedence, exact payload figures, atomicity of every failure (state equality incl. table), no eviction when the entry fits. The harness compares variant, all fields, identity tokens of the returned pair and bit-for-bit pointer structure before/after.', note=_A, technique=_T),
+    'C11': dict(text='Theorems C11_absent / C11_too_large / C11_ok characterise mutate for every state and size change (shrink, equal, growth that fits with minimal eviction, growth beyond the limit with exact old/new sizes and untouched remainder).', note=_A + '; closure-not-called for absent keys is a harness observation', technique=_T),
+    'C15': dict(text='Theorem C15_retain for all predicates: visits = entries LRU to MRU once each with their own key/value, survivors = filter in order, size and drops re-accounted.', note=_A, technique=_T),
 }
